@@ -8,6 +8,8 @@ package main
 // fails loudly.
 
 import (
+	_ "embed"
+	"encoding/json"
 	"fmt"
 	"go/types"
 	"sort"
@@ -15,6 +17,120 @@ import (
 
 	"golang.org/x/tools/go/ssa"
 )
+
+// ---------------------------------------------------------------------------
+// Renamed unexported struct fields.  Rules name data fields (Dir.nodes,
+// ContextScope.errors ...).  layout_ref.json is the field layout (name, type) of
+// every struct of the module on the reference tree; if a field a rule asks for
+// is gone and exactly one *new* field of the same struct has its type, that
+// field stands for it.  The helpers fieldName / fieldLoadName / fieldIndex
+// translate in both directions, so rules keep speaking the reference names.
+
+//go:embed layout_ref.json
+var layoutRefJSON []byte
+
+// fieldAliasToRef: "pkgname.Struct.actual" -> reference field name;
+// fieldAliasFromRef: "pkgname.Struct.ref" -> actual field name.
+var fieldAliasToRef = map[string]string{}
+var fieldAliasFromRef = map[string]string{}
+
+func typeStr(t types.Type) string {
+	return types.TypeString(t, func(p *types.Package) string { return p.Name() })
+}
+
+func structLayouts(p *Prog) map[string][][2]string {
+	out := map[string][][2]string{}
+	for _, pk := range p.Pkgs {
+		if pk.Types == nil {
+			continue
+		}
+		sc := pk.Types.Scope()
+		for _, n := range sc.Names() {
+			tn, ok := sc.Lookup(n).(*types.TypeName)
+			if !ok {
+				continue
+			}
+			st, ok := tn.Type().Underlying().(*types.Struct)
+			if !ok {
+				continue
+			}
+			key := pk.Types.Path() + "." + n
+			var fs [][2]string
+			for i := 0; i < st.NumFields(); i++ {
+				fs = append(fs, [2]string{st.Field(i).Name(), typeStr(st.Field(i).Type())})
+			}
+			out[key] = fs
+		}
+	}
+	return out
+}
+
+func resolveFieldAliases(p *Prog) []string {
+	fieldAliasToRef = map[string]string{}
+	fieldAliasFromRef = map[string]string{}
+	var ref map[string][][2]string
+	if err := json.Unmarshal(layoutRefJSON, &ref); err != nil {
+		return []string{"layout_ref.json unreadable: " + err.Error()}
+	}
+	cur := structLayouts(p)
+	var notes []string
+	for key, rfs := range ref {
+		cfs, ok := cur[key]
+		if !ok {
+			continue
+		}
+		refNames := map[string]bool{}
+		for _, f := range rfs {
+			refNames[f[0]] = true
+		}
+		curNames := map[string]bool{}
+		for _, f := range cfs {
+			curNames[f[0]] = true
+		}
+		short := key[strings.LastIndex(key[:strings.LastIndex(key, ".")], "/")+1:]
+		used := map[string]bool{}
+		for _, rf := range rfs {
+			if curNames[rf[0]] || (len(rf[0]) > 0 && rf[0][0] >= 'A' && rf[0][0] <= 'Z') {
+				continue
+			}
+			var cands []string
+			for _, cf := range cfs {
+				if !refNames[cf[0]] && cf[1] == rf[1] && !used[cf[0]] {
+					cands = append(cands, cf[0])
+				}
+			}
+			// several missing reference fields of this type competing for the candidates: give up
+			competitors := 0
+			for _, rf2 := range rfs {
+				if !curNames[rf2[0]] && rf2[1] == rf[1] {
+					competitors++
+				}
+			}
+			if len(cands) == 1 && competitors == 1 {
+				used[cands[0]] = true
+				fieldAliasToRef[short+"."+cands[0]] = rf[0]
+				fieldAliasFromRef[short+"."+rf[0]] = cands[0]
+				notes = append(notes, fmt.Sprintf("field %s.%s not found; %s.%s (the only new field of type %s) stands for it", short, rf[0], short, cands[0], rf[1]))
+			}
+		}
+	}
+	sort.Strings(notes)
+	return notes
+}
+
+// refFieldName: the reference name of field `actual` of the struct whose short
+// qualified name is structShort ("memfs.Dir").
+func refFieldName(structShort, actual string) string {
+	if r, ok := fieldAliasToRef[structShort+"."+actual]; ok {
+		return r
+	}
+	return actual
+}
+
+func dumpLayout(p *Prog) {
+	b, _ := json.MarshalIndent(structLayouts(p), "", " ")
+	fmt.Println(string(b))
+}
 
 type anchorRef struct{ rel, recv, name, sig string }
 
@@ -79,7 +195,7 @@ func recvName(f *ssa.Function) string {
 func resolveAnchors(p *Prog) []string {
 	anchorAlias = map[string]string{}
 	anchorAliasFn = map[string]*ssa.Function{}
-	var notes []string
+	notes := resolveFieldAliases(p)
 	for _, a := range unexportedAnchors {
 		if a.sig == "" {
 			continue
